@@ -336,7 +336,10 @@ int main(int argc, char** argv) {
     const size_t BATCH = 64;
     size_t pos = 0;
     std::string resf = a.out + "/xresults.txt", errf = a.out + "/child_stderr.txt", lastf = a.out + "/lastcase.txt";
+    int n_runaway = 0;
     while (pos < cases.size()) {
+        // three cases that do not terminate are three failing inputs: the rest of the search is skipped instead of waiting 30 s for each further one
+        if (n_runaway >= 3) { out.count("X_skipped_after_runaway", (long) (cases.size() - pos)); break; }
         size_t hi = std::min(cases.size(), pos + BATCH);
         { std::ofstream r(resf, std::ios::trunc); }
         fflush(nullptr);
@@ -346,7 +349,7 @@ int main(int argc, char** argv) {
             std::ofstream rs(resf, std::ios::app);
             for (size_t i = pos; i < hi; i++) {
                 { std::ofstream lc(lastf, std::ios::trunc); lc << i << "\n" << cjson(cases[i]) << "\n"; }
-                alarm(120);   // watchdog: a single case takes milliseconds; one that is still running after two minutes does not terminate
+                std::signal(SIGALRM, SIG_DFL); alarm(30);   // watchdog: a single case takes milliseconds; one that is still running after 30 s does not terminate
                 Res r = run_case(cases[i], cases[i].seedov >= 0 ? (uint64_t) cases[i].seedov : a.seed);
                 rs << i << "\t" << r.status << "\t" << r.sig << "\t" << jesc(r.what) << "\t" << r.calls << "\n"; rs.flush();
             }
@@ -374,11 +377,12 @@ int main(int argc, char** argv) {
             std::ifstream ef(errf); std::string et((std::istreambuf_iterator<char>(ef)), {});
             std::string key = "crash";
             size_t p;
-            if (WIFSIGNALED(st) && WTERMSIG(st) == SIGALRM) key = "WATCHDOG: the case was still running after 120 s (no termination within the work bound)";
+            if (WIFSIGNALED(st) && WTERMSIG(st) == SIGALRM) key = "WATCHDOG: the case was still running after 30 s (no termination within the work bound)";
             else if ((p = et.find("RUNAWAY")) != std::string::npos) key = et.substr(p, std::min<size_t>(260, et.find('\n', p) - p));
             else if ((p = et.find("Assertion")) != std::string::npos) key = et.substr(p, std::min<size_t>(260, et.find('\n', p) - p));
             else if ((p = et.find("ERROR: AddressSanitizer")) != std::string::npos) key = et.substr(p, std::min<size_t>(200, et.find('\n', p) - p));
             else if ((p = et.find("runtime error:")) != std::string::npos) key = et.substr(p, std::min<size_t>(200, et.find('\n', p) - p));
+            if (key.find("RUNAWAY") == 0 || key.find("WATCHDOG") == 0) n_runaway++;
             std::string sig = (key.find("RUNAWAY") == 0 || key.find("WATCHDOG") == 0) ? "work-bound-runaway" : key.find("Assertion") == 0 ? "assertion" : (key.find("ERROR: AddressSanitizer") == 0 ? "asan" : (key.find("runtime error") == 0 ? "ubsan" : "crash"));
             std::string rj = cjson(c); rj.insert(rj.size() - 1, ",\"seed\":" + str(c.seedov >= 0 ? (uint64_t) c.seedov : a.seed));
             if (is_gen_class(c.cls)) {
